@@ -16,9 +16,11 @@
 (*                   universe does not know), complete in {0,1}: the result *)
 (*                   of an independent closure walk over the raw registry   *)
 (*   configuration   [parallel, entries], an entry is a record              *)
-(*                   [type, srepo, stag, trepo, ttag, allow, deny, rallow,  *)
-(*                    rdeny, platform, mts, backup, referrers, digestTags,  *)
-(*                    fastCheck, force]; allow/deny (tags) and rallow/rdeny *)
+(*                   [type, srepo, stag, treg, trepo, ttag, allow, deny,    *)
+(*                    rallow, rdeny, platform, mts, backup, referrers,      *)
+(*                    digestTags, fastCheck, force]; treg is the registry   *)
+(*                   of the target ("tgt", or "src": a mirror inside the    *)
+(*                   source registry); allow/deny (tags) and rallow/rdeny   *)
 (*                   (repositories of a registry entry) are sequences of    *)
 (*                   filters [tags, style]: `tags` is the subset of the     *)
 (*                   pool the regular expression matches when bound to both *)
@@ -66,26 +68,26 @@ FMatch(f, t) == InS(t, f.tags)
 \* allow first (an empty allow list allows everything), then deny
 Passes(allow, deny, t) == /\ (Len(allow) = 0 \/ \E i \in DOMAIN allow : FMatch(allow[i], t))
                           /\ ~\E i \in DOMAIN deny : FMatch(deny[i], t)
-Pair(k, sr, st, tr, tt) == [k |-> k, srepo |-> sr, stag |-> st, trepo |-> tr, ttag |-> tt]
+Pair(k, sr, st, tg, tr, tt) == [k |-> k, srepo |-> sr, stag |-> st, treg |-> tg, trepo |-> tr, ttag |-> tt]
 \* the (source tag, target tag) pairs entry number k selects in state st
 Pairs(e, k, st) ==
   CASE e.type = "image" ->
-         IF Has(st, <<"src", e.srepo, e.stag>>) THEN {Pair(k, e.srepo, e.stag, e.trepo, e.ttag)} ELSE {}
+         IF Has(st, <<"src", e.srepo, e.stag>>) THEN {Pair(k, e.srepo, e.stag, e.treg, e.trepo, e.ttag)} ELSE {}
     [] e.type = "repository" ->
-         {Pair(k, e.srepo, t, e.trepo, t) : t \in {u \in SrcTags(st, e.srepo) : Passes(e.allow, e.deny, u)}}
+         {Pair(k, e.srepo, t, e.treg, e.trepo, t) : t \in {u \in SrcTags(st, e.srepo) : Passes(e.allow, e.deny, u)}}
     [] e.type = "registry" ->
-         UNION {{Pair(k, r, t, r, t) : t \in {u \in SrcTags(st, r) : Passes(e.allow, e.deny, u)}} :
+         UNION {{Pair(k, r, t, e.treg, r, t) : t \in {u \in SrcTags(st, r) : Passes(e.allow, e.deny, u)}} :
                 r \in {q \in SrcRepos(st) : Passes(e.rallow, e.rdeny, q)}}
 AllPairs(conf, st) == UNION {Pairs(conf.entries[k], k, st) : k \in DOMAIN conf.entries}
 \* the source tags an entry looks at but its tag / repository filters exclude
 Excluded(e, k, st) ==
-  CASE e.type = "repository" -> {<<"tgt", e.trepo, t>> : t \in {u \in SrcTags(st, e.srepo) : ~Passes(e.allow, e.deny, u)}}
-    [] e.type = "registry" -> {<<"tgt", x[2], x[3]>> : x \in {y \in st : y[1] = "src" /\
+  CASE e.type = "repository" -> {<<e.treg, e.trepo, t>> : t \in {u \in SrcTags(st, e.srepo) : ~Passes(e.allow, e.deny, u)}}
+    [] e.type = "registry" -> {<<e.treg, x[2], x[3]>> : x \in {y \in st : y[1] = "src" /\
                                   ~(Passes(e.rallow, e.rdeny, y[2]) /\ Passes(e.allow, e.deny, y[3]))}}
     [] OTHER -> {}
 
 SrcRef(p) == <<"src", p.srepo, p.stag>>
-TRef(p) == <<"tgt", p.trepo, p.ttag>>
+TRef(p) == <<p.treg, p.trepo, p.ttag>>
 MtOk(e, img) == Len(e.mts) = 0 \/ InS(MtOf(img), e.mts)
 \* pairs that also pass the entry's media type list
 Live(conf, st) == {p \in AllPairs(conf, st) : MtOk(conf.entries[p.k], Img(st, SrcRef(p)))}
@@ -99,9 +101,9 @@ Acceptable(conf, st, p) ==
 
 \* the four backup template shapes the scenarios use
 BackupRef(e, p) ==
-  CASE e.backup = "tagtpl"  -> <<"tgt", p.trepo, "bak-" \o p.ttag>>
-    [] e.backup = "const"   -> <<"tgt", p.trepo, "old">>
-    [] e.backup = "fullref" -> <<"tgt", "backups/" \o p.trepo, p.ttag>>
+  CASE e.backup = "tagtpl"  -> <<p.treg, p.trepo, "bak-" \o p.ttag>>
+    [] e.backup = "const"   -> <<p.treg, p.trepo, "old">>
+    [] e.backup = "fullref" -> <<p.treg, "backups/" \o p.trepo, p.ttag>>
     [] e.backup = "othreg"  -> <<"oth", "bk/" \o p.trepo, p.ttag \o "-old">>
     [] OTHER -> <<"none", "none", "none">>
 HasBackup(e) == e.backup \in {"tagtpl", "const", "fullref", "othreg"}
@@ -111,7 +113,7 @@ BkOwners(conf, L, st, r) == {p \in L : /\ HasBackup(conf.entries[p.k])
                                       /\ Has(st, TRef(p))}
 \* pairs that may bring the digest tag r along (digestTags / referrers switched on)
 DigOwners(conf, L, st, r) == {p \in L : /\ (conf.entries[p.k].digestTags \/ conf.entries[p.k].referrers)
-                                       /\ r[1] = "tgt" /\ r[2] = p.trepo /\ r[3] \in DigTags
+                                       /\ r[1] = p.treg /\ r[2] = p.trepo /\ r[3] \in DigTags
                                        /\ Has(st, <<"src", p.srepo, r[3]>>)}
 
 First(checks) == IF \E i \in 1..Len(checks) : checks[i][1]
@@ -139,7 +141,7 @@ TagExplained(conf, L, before, after, r) ==
      \/ \E p \in BkOwners(conf, L, before, r) : a = Img(before, TRef(p)) /\ Img(after, TRef(p)) # Img(before, TRef(p))
      \/ \E p \in DigOwners(conf, L, before, r) : a \in {Img(before, <<"src", p.srepo, r[3]>>), b}
 DestRepos(conf, L, before) ==
-  {<<"tgt", p.trepo>> : p \in L} \cup
+  {<<p.treg, p.trepo>> : p \in L} \cup
   {<<BackupRef(conf.entries[p.k], p)[1], BackupRef(conf.entries[p.k], p)[2]>> :
      p \in {q \in L : HasBackup(conf.entries[q.k]) /\ Has(before, TRef(q))}}
 
